@@ -106,6 +106,11 @@ def unify(a, b):
     """Common kind for two values (CASE branches, comparisons, COALESCE)."""
     if a.kind == b.kind:
         return a, b, a.kind
+    # a statically NULL cell (e.g. CAST(NULL AS VARCHAR)) takes the kind of the other side
+    if a.kind not in ("null", "struct") and z3.is_true(a.null) and b.kind != "null":
+        a = SV("null", TRUE, None, dc=a.dc)
+    elif b.kind not in ("null", "struct") and z3.is_true(b.null) and a.kind != "null":
+        b = SV("null", TRUE, None, dc=b.dc)
     if a.kind == "null":
         return as_kind(a, b.kind), b, b.kind
     if b.kind == "null":
